@@ -41,7 +41,7 @@ SeedOK(S) == /\ S.enc \in BOOLEAN                       \* the document is encry
              /\ \A s \in S.sites : SiteOK(s)
              /\ \A t \in S.streams : t.plen \in Nat /\ t.hdr \in Nat /\ \A fl \in t.fields : fl[1] + fl[2] <= t.plen
              /\ \A e \in S.ents : e.form \in {"table", "stream"}
-             /\ S.flen \in Nat \ {0} /\ S.fstride \in Nat \ {0}
+             /\ S.flen \in Nat \ {0} /\ S.fstride \in Nat \ {0} /\ S.nocache \in BOOLEAN
              /\ \A s1, s2 \in S.sites : s1.id = s2.id => s1 = s2        \* sites are named uniquely
 
 F(cls, site, kind, to, variant, pos, mode) ==
@@ -78,9 +78,11 @@ Deletes(s) == IF s.cont = "dict" THEN {F("value", s.id, "delete", "", 0, 0, "")}
 \* which changes what a cycle guard can rely on (getobj then returns a fresh object on every request).  Every fault
 \* that closes a cycle is enumerated twice: mode "" (caches on, the default) and mode "nocache".
 CycleKinds == {"ref_self", "ref_loop1", "ref_loop2", "off_self", "off_cycle", "off_self_ws", "off_cycle_ws", "ent_in_self"}
-Modes(k) == IF k \in CycleKinds THEN {"", "nocache"} ELSE {""}
+\* (a seed may opt out: with the caches off every lookup in an object stream re-reads the stream - by design - so for the
+\* seed with hundreds of members in one stream the work bound is claimed with the caches on only)
+Modes(k, a) == IF k \in CycleKinds /\ a.nocache THEN {"", "nocache"} ELSE {""}
 RefKinds(s) == (IF s.ownerobj # 0 THEN {"ref_self"} ELSE {}) \cup {"ref_missing", "ref_loop1", "ref_loop2"}
-RefFaults(s) == UNION {{F("value", s.id, k, "", 0, 0, m) : m \in Modes(k)} : k \in RefKinds(s)}
+RefFaults(s) == UNION {{F("value", s.id, k, "", 0, 0, m) : m \in Modes(k, s)} : k \in RefKinds(s)}
 \* the same for values that are file positions (Prev, XRefStm, startxref): own section, past the end of the file,
 \* the newest section (so that every chain reaching it starts over), the middle of an object
 \* Offsets come in two styles: the first byte of the target (`xref`, or the object number of a cross-reference stream)
@@ -88,7 +90,7 @@ RefFaults(s) == UNION {{F("value", s.id, k, "", 0, 0, m) : m \in Modes(k)} : k \
 \* styled kinds: off_ws - the right target, in the second style; off_self_ws / off_cycle_ws - the two cycle faults in
 \* the second style (a cycle guard that remembers positions must not depend on the style)
 OffKinds == {"off_self", "off_dangling", "off_cycle", "off_garbage", "off_ws", "off_self_ws", "off_cycle_ws"}
-OffFaults(s) == UNION {{F("value", s.id, k, "", 0, 0, m) : m \in Modes(k)} : k \in OffKinds}
+OffFaults(s) == UNION {{F("value", s.id, k, "", 0, 0, m) : m \in Modes(k, s)} : k \in OffKinds}
 
 \* ------------------------------------------------------------------ encrypted documents: a string that is no ciphertext
 \* Every other replacement value is written the way a writer would write it - encrypted.  In an encrypted document
@@ -119,32 +121,32 @@ PayloadFaults(t) ==
 \* The one combination of faults in the space: every element of every /Kids array written twice, at every level at
 \* once.  A single duplicated kid doubles one subtree; all of them together make a tree of depth d a "diamond chain"
 \* with 2**d paths - a traversal must still visit every node once (work in proportion to the input).
-MultiFaults == {F("multi", "", "dup_kids_all", "", 0, 0, m) : m \in {"", "nocache"}}
+MultiFaults(a) == {F("multi", "", "dup_kids_all", "", 0, 0, m) : m \in Modes("ref_self", a)}
 \* (a seed may ask for a coarser stride of its own: long files whose every run is costly)
 Max2(a, b) == IF a > b THEN a ELSE b
 FileFaults(S) == {F("file", "", "truncate", "", 0, p, "") : p \in Positions(S.flen, Max2(FileStride, S.fstride))}
-                 \cup MultiFaults
+                 \cup MultiFaults(S)
 
 \* ------------------------------------------------------------------ cross-reference entries
 EntKinds(e) == {"ent_dangling", "ent_other", "ent_mid", "ent_free"} \cup
                (IF e.form = "stream" THEN {"ent_in_self", "ent_in_missing", "ent_in_nonstream", "ent_idx_big"} ELSE {})
-EntFaults(e) == UNION {{F("xrefent", e.id, k, "", 0, 0, m) : m \in Modes(k)} : k \in EntKinds(e)}
+EntFaults(e) == UNION {{F("xrefent", e.id, k, "", 0, 0, m) : m \in Modes(k, e)} : k \in EntKinds(e)}
 
 \* ------------------------------------------------------------------ anchors: where a fault can sit
 \* one record shape for sites, stream payloads, cross-reference entries and the file as a whole
-Anchor(t, id, ownerobj, cont, base, ind, cls, n, form, enc, hdr, fields) ==
+Anchor(t, id, ownerobj, cont, base, ind, cls, n, form, enc, hdr, fields, nocache) ==
   [t |-> t, id |-> id, ownerobj |-> ownerobj, cont |-> cont, base |-> base, ind |-> ind, cls |-> cls, n |-> n, form |-> form,
-   enc |-> enc, hdr |-> hdr, fields |-> fields]
+   enc |-> enc, hdr |-> hdr, fields |-> fields, nocache |-> nocache]
 Anchors(S) ==
-  {Anchor("site", s.id, s.ownerobj, s.cont, s.base, s.ind, s.cls, 0, "", S.enc, 0, {}) : s \in S.sites}
-  \cup {Anchor("stream", t.id, 0, "", "stream", FALSE, "", t.plen, "", S.enc, t.hdr, t.fields) : t \in S.streams}
-  \cup {Anchor("ent", e.id, 0, "", "", FALSE, "", 0, e.form, S.enc, 0, {}) : e \in S.ents}
-  \cup {Anchor("file", "", 0, "", "", FALSE, "", S.flen, "", S.enc, S.fstride, {})}     \* (hdr carries the seed's stride)
+  {Anchor("site", s.id, s.ownerobj, s.cont, s.base, s.ind, s.cls, 0, "", S.enc, 0, {}, S.nocache) : s \in S.sites}
+  \cup {Anchor("stream", t.id, 0, "", "stream", FALSE, "", t.plen, "", S.enc, t.hdr, t.fields, S.nocache) : t \in S.streams}
+  \cup {Anchor("ent", e.id, 0, "", "", FALSE, "", 0, e.form, S.enc, 0, {}, S.nocache) : e \in S.ents}
+  \cup {Anchor("file", "", 0, "", "", FALSE, "", S.flen, "", S.enc, S.fstride, {}, S.nocache)}     \* (hdr carries the seed's stride)
 FaultsAt(a) ==
   CASE a.t = "site"   -> SiteFaults(a)
     [] a.t = "stream" -> PayloadFaults([id |-> a.id, plen |-> a.n, hdr |-> a.hdr, fields |-> a.fields])
     [] a.t = "ent"    -> EntFaults(a)
-    [] a.t = "file"   -> FileFaults([flen |-> a.n, fstride |-> a.hdr])
+    [] a.t = "file"   -> FileFaults([flen |-> a.n, fstride |-> a.hdr, nocache |-> a.nocache])
 FaultSpace(S) == UNION {FaultsAt(a) : a \in Anchors(S)}
 
 \* ------------------------------------------------------------------ the size of the space, by arithmetic
@@ -160,7 +162,9 @@ PerSiteRetypes(s) ==
 PerSite(s) == PerSiteRetypes(s) + (IF s.cont = "dict" THEN 1 ELSE 0)
               + (IF s.base \in EmptyKinds /\ s.cls # "offset" THEN (IF s.cls = "content" THEN 1 ELSE 2) ELSE 0)
               \* offsets: 7 kinds, 4 of them cycles (x 2 modes); values: ref_missing + 2 loops x 2 modes (+ ref_self x 2)
-              + (CASE s.cls = "offset" -> 11 [] s.cls = "value" -> 5 + (IF s.ownerobj # 0 THEN 2 ELSE 0) [] OTHER -> 0)
+              + (LET m == IF s.nocache THEN 2 ELSE 1 IN
+                 CASE s.cls = "offset" -> 3 + 4 * m [] s.cls = "value" -> 1 + 2 * m + (IF s.ownerobj # 0 THEN m ELSE 0)
+                   [] OTHER -> 0)
               + (IF s.enc /\ s.cls = "value" THEN Cardinality(RawForms) ELSE 0)
 NPos(n, stride) == IF n = 0 THEN 0 ELSE ((n - 1) \div stride) + 1 + (IF (n - 1) % stride = 0 THEN 0 ELSE 1)
 ExpectedAt(a) ==
@@ -168,8 +172,8 @@ ExpectedAt(a) ==
     [] a.t = "stream" -> 3 * NPos(a.n, PayloadStride)
                          + Cardinality({p \in 0..(Min2(a.hdr, a.n) - 1) : p \notin Positions(a.n, PayloadStride)})
                          + 3 * Cardinality(a.fields)
-    [] a.t = "ent"    -> IF a.form = "stream" THEN 9 ELSE 4
-    [] a.t = "file"   -> NPos(a.n, Max2(FileStride, a.hdr)) + 2
+    [] a.t = "ent"    -> IF a.form = "stream" THEN (IF a.nocache THEN 9 ELSE 8) ELSE 4
+    [] a.t = "file"   -> NPos(a.n, Max2(FileStride, a.hdr)) + (IF a.nocache THEN 2 ELSE 1)
 \* faults at different anchors differ in their site / class fields, so the space is the disjoint union over anchors
 ExpectedCount(S) == FoldSet(LAMBDA a, n : n + ExpectedAt(a), 0, Anchors(S))
 
@@ -179,7 +183,7 @@ ASSUME SeedsWellFormed == \A n \in DOMAIN Seeds : SeedOK(Seeds[n])
 VARIABLES seed, at, fault
 vars == <<seed, at, fault>>
 
-NoAnchor == Anchor("none", "", 0, "", "", FALSE, "", 0, "", FALSE, 0, {})
+NoAnchor == Anchor("none", "", 0, "", "", FALSE, "", 0, "", FALSE, 0, {}, FALSE)
 NoFault  == F("none", "", "", "", 0, 0, "")
 
 Init == /\ seed \in DOMAIN Seeds
@@ -237,7 +241,7 @@ KindsPresent ==
          /\ (at.cls = "value" =>
                /\ \A k \in {"ref_missing", "ref_loop1", "ref_loop2"} : \E g \in sp : g.kind = k       \* nowhere / cycle
                /\ (at.ownerobj # 0 => \E g \in sp : g.kind = "ref_self")                           \* itself
-               /\ \A g \in sp : g.kind \in CycleKinds => F("value", at.id, g.kind, "", 0, 0, "nocache") \in sp  \* caches off too
+               /\ (at.nocache => \A g \in sp : g.kind \in CycleKinds => F("value", at.id, g.kind, "", 0, 0, "nocache") \in sp)  \* caches off too
                /\ (at.enc => \A v \in RawForms : \E g \in sp : g.kind = "rawstr" /\ g.variant = v))  \* no ciphertext
     [] at.t = "stream" ->                                      \* every position: damaged, and cut
          /\ {g.pos : g \in {h \in sp : h.kind = "corrupt" /\ h.mode = "flip"}} = Positions(at.n, PayloadStride)
@@ -245,7 +249,7 @@ KindsPresent ==
          /\ \A p \in 0..(Min2(at.hdr, at.n) - 1) : F("payload", at.id, "truncate", "", 0, p, "") \in sp   \* every cut in the header
          /\ \A fl \in at.fields : \A v \in FieldValues : F("payload", at.id, "setfield", "", fl[2], fl[1], v) \in sp
     [] at.t = "file" -> /\ {g.pos : g \in {h \in sp : h.cls = "file"}} = Positions(at.n, Max2(FileStride, at.hdr))     \* every truncation point
-                        /\ MultiFaults \subseteq sp
+                        /\ MultiFaults(at) \subseteq sp
     [] at.t = "ent" -> sp # {}
 
 Emit == Damaged => PrintT("@@" \o ToJson([seed |-> seed, f |-> fault, base |-> at.base]))
